@@ -160,6 +160,17 @@ def run(R, env):
                     fl = [f for f in prog.formats if f["crate"] == CRATE and f["file"] == ih.body.span["file"] and f["pieces"] and f["pieces"][0].get("lit", "").startswith("factory/")]
                     tmpl_ok = len(fl) == 1 and [p.get("lit", "{%s}" % p.get("arg")) for p in fl[0]["pieces"]] == ["factory/", "{0}", "/", "{1}"]
                     args_ok = len(fargs) == 2 and is_contract_addr(fargs[0]) and fargs[1][0] == "payload" and any(s_[0] == "field" and s_[2] == "liquid_stake_token_denom" for s_ in subterms(fargs[1]))
+                    # the validated sub-denom is the SAME string that create-denom receives: the validator returns its input
+                    same_str = False
+                    if len(fargs) == 2 and fargs[1][0] == "payload":
+                        vc = shared.unwrap_payload(fargs[1])
+                        vb = shared._body_of_call(prog, vc) if vc[0] == "call" else None
+                        if vb is not None:
+                            oks = [e_ for e_ in exits(Ctx(vb)) if e_["kind"] == "ok"]
+                            same_str = bool(oks) and all(e_["term"][3][0][2][0] == "param" and e_["term"][3][0][2][1] == 1 for e_ in oks)
+                            cd = [m_ for m_ in shared.tf_messages(prog, ih, env) if m_["kind"] == "create"]
+                            same_str = same_str and len(cd) == 1 and norm(cd[0]["subdenom"]) == norm(vc[2][0])
+                    R.ob("C19.R4", "%s:instantiate:configured-subdenom==created-subdenom" % cfgname, same_str, "the sub-denom stored in the LST denom is %s but create-denom receives %s: they must be the same string (the validator must return its input unchanged)" % (fmt(fargs[1])[:100] if len(fargs) == 2 else None, "msg.liquid_stake_token_denom"), loc=op["loc"], fn=ih.body.key)
                     R.ob("C19.R4", "%s:instantiate:lst-denom-is-factory/contract/subdenom" % cfgname, tmpl_ok and args_ok, "liquid_stake_token_denom template %s with arguments %s; expected \"factory/{contract address}/{validated sub-denom}\"" % ([p for p in (fl[0]["pieces"] if fl else [])], [fmt(a)[:60] for a in fargs]), loc=op["loc"], fn=ih.body.key)
             R.floor("C19.R4", cfgname + ": CONFIG.save in instantiate", n, 1)
     # ------------------------------------------------------------ R3 schema
